@@ -73,3 +73,64 @@ def Machine.exec (m : Machine) (s : Stmt) : Machine :=
 def Machine.run (m : Machine) (ss : List Stmt) : Machine := ss.foldl Machine.exec m
 
 end GscribModel.Builder
+
+namespace GscribModel.Builder
+
+/-! ## modal interpreter (C07): what a controller remembers from the lines it has executed -/
+structure ModalSt where
+  tool : Bool := false
+  startCode : Option Code := none     -- last M03 / M04
+  power : Rat := 0                    -- last S
+  coolCode : Option Code := none      -- M07 / M08 while coolant is on
+  toolNumber : Rat := 0               -- last T of a tool change
+  feed : Rat := 0                     -- last F
+  rel : Bool := false                 -- G90 / G91
+  erel : Bool := false                -- M82 / M83
+  fmode : Nat := 1                    -- G93 / G94 / G95
+  inches : Bool := false              -- G20 / G21
+  plane : Nat := 0                    -- G17 / G19 / G18
+  bed : OQ := none
+  hotend : OQ := none
+  chamber : OQ := none
+  params : Params := []               -- last value of every word seen on a motion-family statement
+deriving DecidableEq, Repr
+
+def wordsAsParams (ws : List (String × Rat)) : Params := ws.map fun e => (e.1, some e.2)
+
+/-- F and S are modal on motion, probe and bare-word statements -/
+def ModalSt.trackFS (ms : ModalSt) (ws : List (String × Rat)) : ModalSt :=
+  let m1 := match lookupQ ws "F" with | some f => { ms with feed := f } | none => ms
+  match lookupQ ws "S" with | some v => { m1 with power := v } | none => m1
+
+def firstTemp (ws : List (String × Rat)) : OQ :=
+  match lookupQ ws "S" with | some s => some s | none => lookupQ ws "R"
+
+def ModalSt.execCode (ms : ModalSt) (c : Code) (s : Stmt) : ModalSt :=
+  match c with
+  | .G0 | .G1 | .G38_2 | .G38_3 | .G38_4 | .G38_5 =>
+      { ms.trackFS s.words with params := (ms.params.update (wordsAsParams s.words)) }
+  | .G92 | .G28 => { ms with params := ms.params.update (wordsAsParams s.words) }
+  | .G90 => { ms with rel := false } | .G91 => { ms with rel := true }
+  | .M82 => { ms with erel := false } | .M83 => { ms with erel := true }
+  | .G93 => { ms with fmode := 0 } | .G94 => { ms with fmode := 1 } | .G95 => { ms with fmode := 2 }
+  | .G20 => { ms with inches := true } | .G21 => { ms with inches := false }
+  | .G17 => { ms with plane := 0 } | .G19 => { ms with plane := 1 } | .G18 => { ms with plane := 2 }
+  | .M03 | .M04 => { ms.trackFS s.words with tool := true, startCode := some c, feed := ms.feed }
+  | .M05 => { ms with tool := false }
+  | .M07 | .M08 => { ms with coolCode := some c }
+  | .M09 => { ms with coolCode := none }
+  | .M06 => (match lookupQ s.words "T" with | some t => { ms with toolNumber := t } | none => ms)
+  | .M140 | .M190 => (match firstTemp s.words with | some t => { ms with bed := some t } | none => ms)
+  | .M104 | .M109 => (match firstTemp s.words with | some t => { ms with hotend := some t } | none => ms)
+  | .M141 | .M191 => (match firstTemp s.words with | some t => { ms with chamber := some t } | none => ms)
+  | _ => ms
+
+def ModalSt.exec (ms : ModalSt) (s : Stmt) : ModalSt :=
+  match s.codes with
+  | [] => ms.trackFS s.words          -- bare `F…` / `S…` (a comment-only line has no words)
+  | [c] => ms.execCode c s
+  | _ => ms
+
+def ModalSt.run (ms : ModalSt) (ss : List Stmt) : ModalSt := ss.foldl ModalSt.exec ms
+
+end GscribModel.Builder
